@@ -57,14 +57,14 @@ class Ctx:
                     constraints=(), view=None, spec="Spec", required_actions=(), workers="auto",
                     simulate=None, depth=None, symmetry=None, dump_dot: Path | None = None,
                     timeout=3600, action_constraints=(), coverage=True, deadlock=False,
-                    postcondition=None, env=None, heap=None) -> T.TlcResult:
+                    postcondition=None, env=None, heap=None, gc=None) -> T.TlcResult:
         cfg = T.write_cfg(self.workdir / f"{name}.cfg", spec=spec, constants=constants or {},
                           invariants=invariants, properties=properties, constraints=constraints,
                           view=view, symmetry=symmetry, action_constraints=action_constraints,
                           deadlock=deadlock, postcondition=postcondition)
         res = T.run_tlc(module, cfg, workdir=self.workdir, workers=workers, coverage=coverage,
                         simulate=simulate, depth=depth, seed=self.seed if simulate else None,
-                        dump_dot=dump_dot, timeout=timeout, env=env, heap=heap)
+                        dump_dot=dump_dot, timeout=timeout, env=env, heap=heap, gc=gc)
         self.states += res.distinct
         self.transitions += res.generated
         for a, (d, t) in res.coverage.items():
